@@ -1506,7 +1506,7 @@ impl Translator {
                 let SolvedType::Function(args, _) = self.get_ty(mono, func_node).unwrap() else {
                     unreachable!()
                 };
-                for arg_ty in args {
+                for arg_ty in &args {
                     match arg_ty {
                         SolvedType::Void => {}
                         SolvedType::Poly(_) => unreachable!(),
@@ -1516,11 +1516,11 @@ impl Translator {
                         }
                     }
                 }
-                if nargs > 1 {
+                // patterns and host bindings treat the payload of a variant declared with several
+                // fields as a struct, whatever the number of void fields among them
+                if args.len() > 1 {
                     self.emit(st, Instr::ConstructStruct(nargs));
-                }
-
-                if nargs == 0 {
+                } else if nargs == 0 {
                     self.emit(st, Instr::PushNil(1)); // TODO: optimize this away
                 }
 
